@@ -1,4 +1,46 @@
-import LyModel.Text.XmlText
+import LyModel.Text.XmlLemmas
+import LyModel.Text.JsonLemmas
+/-!
+# C01 — print → parse identity: property theorems (value text level, XML)
+
+`xml_text_roundtrip`: for EVERY string the lexers can have produced (`YangText`), in element content and in
+attribute values, libyang's XML lexer applied to what libyang's XML printer wrote returns the string, the
+`ws_only` flag (set iff every byte is white space that was printed literally), and stops exactly at the terminator.  The printer is the function read off the source by the
+translator (`Generated.xmlEscExceptions`); `esc_eq_spec` is the obligation that breaks when the switch changes.
+-/
 namespace LyModel.Props.C01
-theorem placeholder : True := trivial
+open LyModel LyModel.Utf8 LyModel.XmlText
+
+/-- Element content (`endc = '<'`, `attr = false`) and attribute values (`endc = '"'`, `attr = true`).
+    `hrest`: what follows the terminator is not a CDATA opener (the printer continues with `</name>`). -/
+theorem xml_text_roundtrip (attr : Bool) (endc : UInt8) (hend : EndOk attr endc) (s rest : Bytes)
+    (hs : YangText s) (hrest : stripPrefix sCdata (endc :: rest) = none) :
+    XmlText.parse endc (dumpText attr s ++ endc :: rest) = .ok (s, s.all (wsLit attr), endc :: rest) := by
+  have := parseValue_dump attr endc hend rest hrest hs ((dumpText attr s ++ endc :: rest).length + 1) true
+    (by simp [List.length_append])
+  simpa [XmlText.parse] using this
+
+/-- element content followed by an end tag -/
+theorem xml_content_roundtrip (s rest : Bytes) (hs : YangText s) :
+    XmlText.parse 60 (dumpText false s ++ 60 :: 47 :: rest) = .ok (s, s.all (wsLit false), 60 :: 47 :: rest) :=
+  xml_text_roundtrip false 60 (Or.inl rfl) s (47 :: rest) hs (by simp [sCdata, stripPrefix])
+
+/-- attribute value followed by the closing quote -/
+theorem xml_attr_roundtrip (s rest : Bytes) (hs : YangText s) :
+    XmlText.parse 34 (dumpText true s ++ 34 :: rest) = .ok (s, s.all (wsLit true), 34 :: rest) :=
+  xml_text_roundtrip true 34 (Or.inr ⟨rfl, rfl⟩) s rest hs (by simp [sCdata, stripPrefix])
+
+/-- JSON: `lyjson_string`, started after the opening quote of what `json_print_string` wrote, returns the string and
+    stops after the closing quote — for every `YangText` string (control characters travel as `\t`, `\r`, `\u000A`,
+    `\u007F`). -/
+theorem json_string_roundtrip (s rest : Bytes) (hs : YangText s) :
+    JsonText.parse ((JsonText.printString s).tail ++ rest) = .ok (s, rest) := by
+  have := JsonText.parseString_print hs rest (((JsonText.printString s).tail ++ rest).length + 1)
+    (by simp [JsonText.printString, List.length_append])
+  simpa [JsonText.parse, JsonText.printString] using this
+
+/-- non-vacuity: a string with markup, quotes, a control character and 2-, 3- and 4-byte characters is `YangText` -/
+example : YangText [97, 60, 38, 62, 34, 39, 9, 0xC3, 0xA9, 0xE2, 0x82, 0xAC, 0xF0, 0x9F, 0x98, 0x80] :=
+  isYangText_sound _ (by decide)
+
 end LyModel.Props.C01
